@@ -62,14 +62,15 @@ class Qual:
         return use not in pg.reach_after(dnode, avoid)
 
     # -- main ----------------------------------------------------------
-    def check(self, f, call, argi, depth=0, seen=()):
-        """(ok, why) for argument argi of `call` in function f."""
+    def check(self, f, call, argi, depth=0, seen=(), sent=False):
+        """(ok, why) for argument argi of `call` in function f.  sent: the value is compared with the
+        sentinel further down, at its use (a link field may then flow here unchecked)."""
         g = guards(self.ctx, f)
         p = g.prov.operand(call.term["args"][argi])
         atoms = g.atoms_at(("t", call.bb))
-        return self.check_prov(f, p, atoms, call, depth, seen)
+        return self.check_prov(f, p, atoms, call, depth, seen, sent)
 
-    def check_prov(self, f, p, atoms, call, depth, seen):
+    def check_prov(self, f, p, atoms, call, depth, seen, sent=False):
         if depth > 8:
             return False, "inference depth exceeded at %s" % p[:60]
         for rx in self.consts:
@@ -99,10 +100,12 @@ class Qual:
             if p.endswith("." + lf):
                 if self._guarded_not_sentinel(atoms, p):
                     return True, "link field compared with the sentinel (range validated at open)"
+                if sent:
+                    return True, "link field, compared with the sentinel where it is used (range validated at open)"
                 return False, "link field %s used without a comparison with %s on the path" % (p[-50:], self.sentinel)
         m = re.match(r"^param:(\w+)$", p)
         if m:
-            return self.check_param(f, m.group(1), depth, seen)
+            return self.check_param(f, m.group(1), depth, seen, sent)
         m = re.match(r"^param:arg1\.(\w+)$", p)
         if m and f.kind == "closure" and f.parent in self.ctx.fx.fns:
             # a captured variable: judge it in the enclosing function
@@ -111,7 +114,7 @@ class Qual:
             l = names.get(m.group(1))
             if l is not None:
                 pp = Prov(par).local(l)
-                return self.check_prov(par, pp, [], None, depth + 1, seen)
+                return self.check_prov(par, pp, [], None, depth + 1, seen, sent)
         m = re.match(r"^var:(\w+)$", p)
         if m:
             names = {nm: l for l, nm in f.debug_names().items()}
@@ -142,20 +145,20 @@ class Qual:
                     return False, "variable %s is loaded from a link field and can reach this use without a comparison with %s" % (m.group(1), self.sentinel)
                 # other definitions are judged with the conditions that hold where they are made
                 datoms = g.atoms_at(dnode)
-                ok, w = self.check_prov(f, dp, datoms, None, depth + 1, seen)
+                ok, w = self.check_prov(f, dp, datoms, None, depth + 1, seen, sent or self._guarded_not_sentinel(atoms, p))
                 if not ok:
                     return False, "variable %s may hold %s: %s" % (m.group(1), dp[:60], w)
             return True, "every definition of the variable is qualified"
         if p.startswith("phi(") and p.endswith(")"):
             for alt in p[4:-1].split("|"):
-                ok, w = self.check_prov(f, alt, atoms, None, depth + 1, seen)
+                ok, w = self.check_prov(f, alt, atoms, None, depth + 1, seen, sent)
                 if not ok:
                     return False, w
             return True, "all alternatives qualified"
         return False, "value %s has no qualified origin" % p[:80]
 
-    def check_param(self, f, pname, depth, seen):
-        key = (f.path, pname)
+    def check_param(self, f, pname, depth, seen, sent=False):
+        key = (f.path, pname, sent)
         if key in self._memo:
             return self._memo[key]
         if key in seen:
@@ -175,7 +178,7 @@ class Qual:
         for (cf, cc) in callers:
             if ai >= len(cc.term["args"]):
                 continue
-            ok, w = self.check(cf, cc, ai, depth + 1, seen + (key,))
+            ok, w = self.check(cf, cc, ai, depth + 1, seen + (key,), sent)
             if not ok:
                 r = (False, "%s passes an unqualified value (line %d): %s" % (cf.path.split("::")[-1], cc.line, w))
                 self._memo[key] = r
